@@ -15,7 +15,7 @@
 From Hive.Base Require Import Prelude.
 From Hive.Model Require Import Types KernelBase SimOps States Step.
 From Hive.Gen Require Import Kernels.
-From Hive.Proofs Require Import Traverse Move.
+From Hive.Proofs Require Import Traverse Move Walk.
 Local Open Scope Z_scope.
 
 Theorem C06_link_degenerate : forall gc mid link t, l_start link = l_end link ->
@@ -47,6 +47,17 @@ Theorem C06_odometer : forall (m : Mech) (v : Vehicle) exp p d st,
   let v2 := (veh_tick_distance ((mech_consume m v exp) <| v_pos := p |>) d) <| v_state := st |> in
   (v_odo v2 - v_odo v == d)%Q.
 Proof. exact moved_odometer. Qed.
+(* the walk structure and progress (for every link table, step length and speed) *)
+Theorem C06_traverse_keeps_walk : forall env g route dur tr h, walk g route = Some h -> traverse env route dur = Ok tr ->
+  rt_exp tr <> [] -> walk g (rt_exp tr ++ rt_rem tr) = Some h.
+Proof. exact traverse_walk. Qed.
+Theorem C06_progress : forall env l route dur tr, dur <> 0%Z -> l_start l <> l_end l -> l_start l <> l_end (last (l :: route) l) ->
+  traverse env (l :: route) dur = Ok tr -> rt_exp tr <> [].
+Proof. exact traverse_progress. Qed.
+Theorem C06_nothing_driven_means_arrived : forall env g route dur tr h, dur <> 0%Z -> walk g route = Some h -> traverse env route dur = Ok tr ->
+  rt_exp tr = [] -> h = g.
+Proof. exact traverse_nothing. Qed.
+Print Assumptions C06_traverse_keeps_walk. Print Assumptions C06_progress. Print Assumptions C06_nothing_driven_means_arrived.
 Print Assumptions C06_link_degenerate. Print Assumptions C06_link_full. Print Assumptions C06_link_split.
 Print Assumptions C06_split_point_on_link. Print Assumptions C06_whole_second_rounding. Print Assumptions C06_route_traversal.
 Print Assumptions C06_move. Print Assumptions C06_odometer.
